@@ -463,59 +463,79 @@ example : (callHelper (Float.floatHelper F64.mul) [.const (ascii "1e200"), .cons
     ⟨fun _ => [], fun _ => []⟩).toOption = some (ascii "+Inf") := by decide +kernel
 
 /-- **`sumf` on small integers is exact**: arguments that parse to integer-valued floats `n₀ … nₖ`
-    whose partial sums all have magnitude ≤ 2^53 give the float whose value is exactly `Σ nᵢ` — and,
-    when the sum is not zero, that float is `float64(Σ nᵢ)`, so the output is `FormatFloat(float64(Σ nᵢ))`.
-    (Full statement wanted: the output is the decimal string `itoa (Σ nᵢ)`; what is missing is the
-    lemma `fmtF (F64.ofInt n) = itoa n` for `|n| ≤ 2^53` about the shortest-digits search.) -/
-theorem sumf_exact_small_ints_partial (c : Ctx) (as : List Arg) (x : F64) (xs : List F64) (n : Int) (ns : List Int)
+    (any spelling: `7`, `7.0`, `0.7e1`, `0x7p0` …) whose partial sums all have magnitude ≤ 2^53 give
+    exactly the decimal rendering of the integer sum `Σ nᵢ` — `strconv.Itoa` of it.  The only other
+    output is `-0`, when the sum is zero and IEEE makes it a negative zero (`{sumf -0 -0}`), as the
+    code has it. -/
+theorem sumf_exact_small_ints (c : Ctx) (as : List Arg) (x : F64) (xs : List F64) (n : Int) (ns : List Int)
     (hp : as.map (fun a => Float.parseF (a.val c)) = (x :: xs).map some) (hlen : 1 ≤ xs.length)
     (hx : x.toRat? = some (n : Rat))
     (hxs : All2 (fun x n => x.toRat? = some ((n : Int) : Rat)) xs ns)
     (hsmall : PartialSumsSmall n ns) :
-    ∃ y : F64, callHelper (Float.floatHelper F64.add) as c = .ok (Float.fmtF y) ∧
-      y.toRat? = some ((ns.foldl (· + ·) n : Int) : Rat) ∧
-      (ns.foldl (· + ·) n ≠ 0 → y = F64.ofInt (ns.foldl (· + ·) n)) := by
-  refine ⟨xs.foldl F64.add x, floatHelper_fold F64.add c as x xs hp hlen, ?_, ?_⟩
-  · exact foldl_add_exact xs ns x n hx hxs hsmall
-  · intro hne
-    have hy := foldl_add_exact xs ns x n hx hxs hsmall
-    obtain ⟨fy, vy⟩ := F64.toRat?_eq_some.mp hy
-    -- the last partial sum is small, hence the total is a float
-    have hsm : ∀ (ns : List Int) (n : Int), n.natAbs ≤ 9007199254740992 → PartialSumsSmall n ns →
-        (ns.foldl (· + ·) n).natAbs ≤ 9007199254740992 := by
-      intro ns
-      induction ns with
-      | nil => intro n h _; exact h
-      | cons m r ih => intro n _ hs; exact ih (n + m) hs.1 hs.2
-    cases ns with
-    | nil => cases hxs; simp at hlen
-    | cons m r =>
-      have hb := hsm r (n + m) hsmall.1 hsmall.2
+    callHelper (Float.floatHelper F64.add) as c = .ok (itoa (ns.foldl (· + ·) n)) ∨
+    (ns.foldl (· + ·) n = 0 ∧ callHelper (Float.floatHelper F64.add) as c = .ok (ascii "-0")) := by
+  rw [floatHelper_fold F64.add c as x xs hp hlen]
+  have hy := foldl_add_exact xs ns x n hx hxs hsmall
+  obtain ⟨fy, vy⟩ := F64.toRat?_eq_some.mp hy
+  -- the last partial sum is small, hence the total is a float
+  have hsm : ∀ (ns : List Int) (n : Int), n.natAbs ≤ 9007199254740992 → PartialSumsSmall n ns →
+      (ns.foldl (· + ·) n).natAbs ≤ 9007199254740992 := by
+    intro ns
+    induction ns with
+    | nil => intro n h _; exact h
+    | cons m r ih => intro n _ hs; exact ih (n + m) hs.1 hs.2
+  cases ns with
+  | nil => cases hxs; simp at hlen
+  | cons m r =>
+    have hb := hsm r (n + m) hsmall.1 hsmall.2
+    by_cases hne : List.foldl (· + ·) n (m :: r) = 0
+    · -- a zero sum prints as 0 or -0
+      rw [hne] at vy
+      have : (xs.foldl F64.add x).toRat = 0 := by rw [vy]; rfl
+      rcases fmtF_zero this with e | e
+      · left; rw [e, hne]; exact congrArg Except.ok (by decide +kernel)
+      · right; exact ⟨hne, by rw [e]⟩
+    · left
       obtain ⟨fo, vo⟩ := F64.isFinite_ofInt _ hb
-      apply F64.eq_of_toRat_eq fy fo
-      · rw [vy]; exact vo.symm
-      · rw [vy]; intro h0
-        exact hne (by
-          have : ((List.foldl (· + ·) n (m :: r) : Int) : Rat) = ((0 : Int) : Rat) := by simpa using h0
-          exact Rat.intCast_inj.mp this)
+      have heq : xs.foldl F64.add x = F64.ofInt (List.foldl (· + ·) n (m :: r)) := by
+        apply F64.eq_of_toRat_eq fy fo
+        · rw [vy]; exact vo.symm
+        · rw [vy]; intro h0
+          exact hne (by
+            have : ((List.foldl (· + ·) n (m :: r) : Int) : Rat) = ((0 : Int) : Rat) := by simpa using h0
+            exact Rat.intCast_inj.mp this)
+      rw [heq]
+      show Except.ok (F64.format _ (-1)) = _
+      have hb' : (List.foldl (· + ·) n (m :: r)).natAbs ≤ 9007199254740992 := hb
+      rw [F64.format_ofInt hb']
 
 /-- The same for arguments that are *integer spellings* (whatever `strconv.Atoi` accepts, constants
     or match groups), each of magnitude ≤ 2^53, with partial sums of magnitude ≤ 2^53: `{sumf …}`
-    prints `FormatFloat` of the float whose value is exactly the integer sum.  (`_partial`: see above.) -/
-theorem sumf_of_int_spellings_partial (c : Ctx) (as : List Arg) (n : Int) (ns : List Int)
+    prints the integer sum (or `-0` for `{sumf -0 -0}`). -/
+theorem sumf_of_int_spellings (c : Ctx) (as : List Arg) (n : Int) (ns : List Int)
     (hp : as.map (fun a => atoi (a.val c)) = (n :: ns).map some) (hlen : 1 ≤ ns.length)
     (hb : ∀ m ∈ n :: ns, m.natAbs ≤ 9007199254740992) (hsmall : PartialSumsSmall n ns) :
-    ∃ y : F64, callHelper (Float.floatHelper F64.add) as c = .ok (Float.fmtF y) ∧
-      y.toRat? = some ((ns.foldl (· + ·) n : Int) : Rat) ∧
-      (ns.foldl (· + ·) n ≠ 0 → y = F64.ofInt (ns.foldl (· + ·) n)) := by
+    callHelper (Float.floatHelper F64.add) as c = .ok (itoa (ns.foldl (· + ·) n)) ∨
+    (ns.foldl (· + ·) n = 0 ∧ callHelper (Float.floatHelper F64.add) as c = .ok (ascii "-0")) := by
   obtain ⟨xs, hx, hall⟩ := ints_parse_as_floats c as (n :: ns) hp hb
   cases hall with
   | cons h1 h2 =>
     rename_i x xs'
-    exact sumf_exact_small_ints_partial c as x xs' n ns hx (by
+    exact sumf_exact_small_ints c as x xs' n ns hx (by
       have := congrArg List.length hx
       have l2 := congrArg List.length hp
       simp at this l2; omega) h1 h2 hsmall
+
+/-- **`FormatFloat(float64(n), 'f', -1, 64) = strconv.Itoa(n)`** for every integer `|n| ≤ 2^53`: the
+    shortest-digits rendering of an integer-valued float is the integer's decimal spelling (no
+    exponent, no fraction) — what makes the float helpers agree with the integer helpers on integers. -/
+theorem format_float_of_int (n : Int) (h : n.natAbs ≤ 9007199254740992) :
+    Float.fmtF (F64.ofInt n) = itoa n :=
+  F64.format_ofInt h
+
+example : Float.fmtF (F64.ofInt (-9007199254740992)) = ascii "-9007199254740992" ∧
+    Float.fmtF (F64.ofInt 9007199254740993) = ascii "9007199254740992" ∧
+    Float.fmtF (F64.ofInt 1000000) = ascii "1000000" := by decide +kernel
 
 /-- An integer spelling is a float spelling: `ParseFloat` accepts whatever `Atoi` accepts and returns the
     correctly rounded integer (so the integer helpers' inputs are also inputs of the float helpers). -/
